@@ -368,7 +368,80 @@ def gen_case(r, profile, tier):
     return g.ops
 
 
+def gen_tst_case(r, tier):
+    """profile `tst` (timer, socket, timer): one or more socket registrations and >= 2 timers that have all expired at the
+    same wake-up (a poll answered with nothing ready and a clock advance beyond every deadline; or timers of 0 us); the
+    first timer's callback does nothing that matters, and the zero-timeout poll the loop issues AFTER that callback reports
+    a registered descriptor ready.  C05: that socket callback runs before the next timer (trace T S T) -- the loop has to
+    look at the registered descriptors between two timer callbacks; a loop that trusts an earlier "nothing ready" answer and
+    goes straight to the next timer (T T, the socket callback not run in this call) is what the monitor clause "timer run
+    without a look at the registered descriptors since the previous callback" rejects."""
+    g = G(r, "tst")
+    ops = g.ops
+    nfd = r.weighted([(1, 30), (2, 30), (4, 25), (8, 15)])
+    base = r.choice([0, 0, 3, 100])
+    g.fdpool = [base + i for i in range(nfd)]
+    if r.chance(1, 2):
+        for i in range(len(g.fdpool) - 1, 0, -1):
+            j = r.below(i + 1)
+            g.fdpool[i], g.fdpool[j] = g.fdpool[j], g.fdpool[i]
+    if r.chance(1, 3):
+        ops.append("clock %d" % r.choice([1, 999, 1500000]))
+    regs = []
+    socks = []
+    for fd in g.fdpool[:r.range(1, min(3, nfd))]:
+        i = g.fresh()
+        d = r.choice("rw")
+        ops.append("script %d 0 -" % i)
+        regs.append("reg_net %d %d %s" % (i, fd, d))
+        socks.append((fd, d))
+    ntm = r.weighted([(2, 60), (3, 30), (4, 10)])
+    kind = r.weighted([("tie", 40), ("spread", 40), ("zero", 20)])
+    if kind == "tie":
+        us = [r.choice([1, 1000, 1500, 2000, 1000000])] * ntm
+    elif kind == "spread":
+        u0, step = r.choice([1, 999, 1000, 1001, 5000]), r.choice([1, 500, 1000, 250000])
+        us = [u0 + k * step for k in range(ntm)]
+        if r.chance(1, 2):
+            us.reverse()
+    else:
+        us = [0] * ntm
+    for u in us:
+        i = g.fresh()
+        ops.append("script %d 0 %s" % (i, r.weighted([("-", 70), ("clk:1", 15), ("clk:1000", 5), ("cn:%d:w" % (base + nfd), 10)])))
+        regs.append("reg_tm %d %d" % (i, u))
+    if r.chance(1, 2):
+        for i in range(len(regs) - 1, 0, -1):
+            j = r.below(i + 1)
+            regs[i], regs[j] = regs[j], regs[i]
+    ops += regs
+    if r.chance(1, 6):
+        ops.append("pollintr %d" % (r.choice([0, 1]) if EINTR_TIME else 0))
+    # the wake-up: nothing ready, every timer has expired; then the look before the first timer: still nothing
+    ops.append("poll %d -" % (max(us) + r.choice([0, 0, 1, 1000, 2500000])))
+    ops.append("poll 0 -")
+    # after each timer callback but the last: a registered descriptor has become ready (most of the time)
+    nxt = 0
+    for k in range(ntm - 1):
+        if k == 0 or r.chance(2, 3):
+            fd, d = socks[nxt % len(socks)]
+            nxt += 1
+            ops.append("poll 0 %d:%s" % (fd, r.weighted([(d, 60), ("rw", 20), ("h", 10), ("e", 10)])))
+            if nxt <= len(socks):
+                ops.append("poll 0 -")          # the look after the socket callback
+        else:
+            ops.append("poll 0 -")
+    ops.append("run")
+    # drain, as in gen_case
+    ops.append("poll 4000000 %s" % ",".join("%d:rw" % fd for fd in g.fdpool[:60]))
+    ops.append("run")
+    ops.append("run")
+    return ops
+
+
 PROFILES = [("mixed", 30), ("net", 25), ("imm", 12), ("tm", 15), ("status", 18), ("far", 8)]
+# profile `tst` is generated on top of these (own PRNG forks: the cases of the other profiles stay what they were)
+TST_SHARE = 12      # one `tst` case per 12 others: 333 in the quick tier, 5000 in the thorough tier
 
 
 def gen_events(rng, tier, mult):
@@ -377,6 +450,8 @@ def gen_events(rng, tier, mult):
     for ci in range(n):
         r = rng.fork("e%d" % ci)
         cases.append(gen_case(r, r.weighted(PROFILES), tier))
+    for ci in range(n // TST_SHARE):
+        cases.append(gen_tst_case(rng.fork("tst%d" % ci), tier))
     return cases
 
 
@@ -388,9 +463,14 @@ def nontrivial(case):
 def classify(case, out):
     tags = []
     nrun = ncb = 0
+    kind_of = {}        # registration id -> "I" / "S" / "T", from the registrations seen to succeed (top level and callbacks)
     for o, line in zip(case, out):
         l1 = line.split(" | ")[0]
         toks = l1.split()
+        for t in toks:
+            f = t.split(":")
+            if f[0] in ("ri", "rn", "rt") and f[-1] == "ok":
+                kind_of[f[1]] = {"ri": "I", "rn": "S", "rt": "T"}[f[0]]
         if o != "run":
             if o.startswith(("reg_", "cancel_", "reset_")):
                 tags.append("top:" + toks[0].rsplit(":", 1)[-1])
@@ -404,11 +484,13 @@ def classify(case, out):
         prev_eintr_far = False
         prev_kind = None
         sig_polls = None
+        order = ""          # kinds of the callbacks of this call, in the order they ran
         for t in toks:
             f = t.split(":")
             if f[0] == "cb":
                 incb = True
                 fired += 1
+                order += kind_of.get(f[1], "?")
                 if sig_polls is not None:
                     tags.append("poll:intr:then-callback")      # only legal after a request during the non-blocking poll
             elif f[0] == "end":
@@ -467,6 +549,11 @@ def classify(case, out):
             elif incb and f[0] == "int":
                 tags.append("stop:interrupt@%s" % (fired if fired < 4 else "4+"))
         ncb += fired
+        if "TST" in order:
+            # between two timers that had both expired a descriptor became ready and its callback ran first
+            tags.append("timer-then-ready-socket-then-timer")
+        if "TT" in order:
+            tags.append("timer-then-timer")
         tags.append("run:fired=%s" % (fired if fired < 3 else "3-9" if fired < 10 else "10+"))
         if fired >= 300:
             tags.append("run:cap")
@@ -487,7 +574,8 @@ def component(monitor):
              "during the poll -- first answer of a call / after EINTRs / after an answered poll / twice, with infinite, finite "
              "(also the far timers) and zero timeouts, followed by EINTRs, ready descriptors and clock advances that expire "
              "timers --, clock advance, level-triggered repeats) and "
-             "events_run calls; profiles mixed/net/imm/tm/status/far; non-trivial = >= 2 runs and >= 2 register/cancel/reset calls; "
+             "events_run calls; profiles mixed/net/imm/tm/status/far, plus one `tst` case per 12 of these: a socket registration and >= 2 timers "
+             "expired at the same wake-up, a descriptor reported ready by the zero-timeout poll after the first timer's callback (T S T); non-trivial = >= 2 runs and >= 2 register/cancel/reset calls; "
              "L1 = the %s monitor over the implementation's trace, L2 = equality with the model's trace and white-box state" % monitor.upper(),
         classify=classify, monitor_args=["eventsmon", monitor], ldflags=["-Wl,--wrap=poll"],
         bb_ok=True, bb_srcs=BB_SRCS)
